@@ -49,3 +49,12 @@ def run(ctx):
         ctx.coverage["rootsim_stop_runs"] = stop_cov
     # refinement of the concrete kernel to the abstract global Time Warp machine of the glue theorems, checked on small runs
     runlib.tw_matrix(ctx, 12, 400, salt=3)
+    # committed stream with remote traffic: two-rank runs against the adversarial peer; the exactly-once oracle on the committed
+    # stream of remote events (cancelled => never committed; not cancelled and below the final GVT => committed exactly once) is the
+    # statement of this property for events that arrive from another rank
+    keep = dict(ctx.coverage)
+    runlib.peer_matrix(ctx, 16, 200, salt=33)
+    pm = ctx.coverage.get("peer_mode")
+    ctx.coverage.clear()
+    ctx.coverage.update(keep)
+    ctx.coverage["committed_remote_events(two-rank peer runs)"] = pm
